@@ -105,3 +105,58 @@ func (h *zzCaptureHandler) NewIngester(ctx *transformctx.Ctx, input io.Reader) (
 	h.input = input
 	return &zzIngester{}, nil
 }
+
+// C18Wide: the same law across the internal buffer boundaries of the reader stack
+// (transform.Reader's 4096-byte buffers, bufio's 4096-byte buffer): PAD ASCII bytes, with PAD a
+// few bytes around 4096 and 8192, followed by a symbolic byte and an ASCII tail; single-byte
+// encodings.
+func C18Wide() {
+	encs := []string{"iso-8859-1", "windows-1252"}
+	ei := zz.NondetChoice("encoding", len(encs))
+	ps := header.ParserSettings{Encoding: &encs[ei]}
+	base := []int{4096, 8192}[zz.NondetChoice("boundary", zz.Param("BOUNDARIES", 1))]
+	pad := base - 5 + zz.NondetChoice("pad", 8)
+	hi := zz.NondetByte("b")
+	input := make([]byte, 0, pad+3)
+	for i := 0; i < pad; i++ {
+		input = append(input, 'a')
+	}
+	input = append(input, hi, 'y', 'z')
+	var dec []byte
+	switch {
+	case hi < 0x80:
+		dec = []byte{hi}
+	case ei == 1 && hi < 0xA0:
+		r := zzCP1252[hi-0x80]
+		zz.Assume(r != 0)
+		dec = zzUTF8(r)
+	default:
+		dec = zzUTF8(rune(hi))
+	}
+	h := &zzCaptureHandler{}
+	sch := &schema{name: "s", header: header.Header{ParserSettings: ps}, handler: h}
+	_, err := sch.NewTransform("in", &zzChunkReader{data: input, failAt: -1}, &transformctx.Ctx{})
+	zz.Assert(err == nil && h.input != nil, "reader stack builds")
+	var got []byte
+	buf := make([]byte, 512)
+	for i := 0; i < 64; i++ {
+		n, err := h.input.Read(buf)
+		got = append(got, buf[:n]...)
+		if err == io.EOF {
+			break
+		}
+		zz.Assert(err == nil, "no read error")
+	}
+	zz.Assert(len(got) == pad+len(dec)+2, "no byte lost or duplicated at a buffer boundary")
+	if len(got) == pad+len(dec)+2 {
+		ok := got[pad+len(dec)] == 'y' && got[pad+len(dec)+1] == 'z'
+		for i, d := range dec {
+			ok = zzAndB(ok, got[pad+i] == d)
+		}
+		zz.Assert(ok, "the character at the boundary is decoded as the code page says")
+		zz.Assert(got[0] == 'a' && got[pad-1] == 'a', "padding intact")
+	}
+	zz.Cover("wide")
+}
+
+func zzAndB(a, b bool) bool { return !zz.Implies(a, !b) }
